@@ -2492,6 +2492,12 @@ type repoT struct {
 	// This is not persisted.  It is built on load or modification of syncs.
 	subs map[SyncEvent]SyncSubs
 
+	// saveMu serializes the writes and the deletion of this repo's stored metadata.  Once deleted is set
+	// (by delete) the repo is never written again: a request or background task that was still running
+	// when the repo was deleted must not bring its metadata back.
+	saveMu  sync.Mutex
+	deleted bool
+
 	// an atomic operation ID monotonically incremented per mutation and stored in separate kv
 	mutCurID   uint64
 	mutSavedID uint64
@@ -2837,6 +2843,11 @@ func (r *repoT) saveToStore(db storage.OrderedKeyValueDB) error {
 	if db == nil {
 		return fmt.Errorf("cannot save repo to nil store")
 	}
+	r.saveMu.Lock()
+	defer r.saveMu.Unlock()
+	if r.deleted {
+		return nil
+	}
 	r.RLock()
 	compression, err := dvid.NewCompression(dvid.LZ4, dvid.DefaultCompression)
 	if err != nil {
@@ -2856,6 +2867,9 @@ func (r *repoT) saveToStore(db storage.OrderedKeyValueDB) error {
 // deletes a Repo from the datastore
 func (r *repoT) delete() error {
 	var ctx storage.MetadataContext
+	r.saveMu.Lock()
+	defer r.saveMu.Unlock()
+	r.deleted = true
 	r.RLock()
 	tk := storage.NewTKey(repoKey, r.id.Bytes())
 	r.RUnlock()
